@@ -375,6 +375,10 @@ func (r *Realm) parseLines(name string, lines []string) (err error) {
 		}
 
 		p := strings.Split(line, "=")
+		if len(p) < 2 {
+			// A line that only closes a nested block carries no key/value pair
+			continue
+		}
 		key := strings.TrimSpace(strings.ToLower(p[0]))
 		v := strings.TrimSpace(p[1])
 		switch key {
